@@ -187,6 +187,14 @@ class C03Hook:
                 ctx.fail(f'{out}-transaction-sent-report', f'{[m.short for m in wire]}', case)
         if out == 'empty' and (snap != self.before_snap or wire):
             ctx.fail('empty-transaction-had-effect', str(lb.diff_snapshots(self.before_snap, snap)[:3]), case)
+        if out == 'committed':
+            # 'commits completely': nothing of what the transaction removed may be left behind half-way
+            dangling = [f'state {h}' for h in snap['states'] if h not in snap['descriptors']] + \
+                       [f'context state {h} of {s["dh"]}' for h, s in snap['context_states'].items() if s['dh'] not in snap['descriptors']] + \
+                       [f'descriptor {h} below {d["parent"]}' for h, d in snap['descriptors'].items()
+                        if d['parent'] is not None and d['parent'] not in snap['descriptors']]
+            if dangling:
+                ctx.fail('committed-transaction-applied-partly', f'left behind: {dangling[:4]}', case)
         for sig, detail in info.get('isolation_failures', []):
             ctx.fail(sig, detail, case)
         probs = index_problems(w)
